@@ -13,6 +13,18 @@ for f in glob.glob('/verif/harness/*.go'):
 json.dump({"Replace":rep},open(os.path.join(out,'overlay.json'),'w'))
 PY
 cd /repo
+if [ "$RACE" = cli ]; then
+  # the real command-line program + the scripted deployer (harness/cli/cli_init.go)
+  python3 - "$OUT" <<'PY'
+import json,os,sys
+out=sys.argv[1]
+rep={'/repo/cmd/arcaflow/zz_verif_sink.go':'/verif/harness/sink.go','/repo/cmd/arcaflow/zz_verif_scripted.go':'/verif/harness/scripted.go',
+     '/repo/cmd/arcaflow/zz_verif_cli_init.go':'/verif/harness/cli/cli_init.go'}
+json.dump({"Replace":rep},open(os.path.join(out,'overlay_cli.json'),'w'))
+PY
+  go build -overlay "$OUT/overlay_cli.json" -tags verif -o "$OUT/verifcli" ./cmd/arcaflow
+  exit $?
+fi
 if [ "$RACE" = race ]; then
   go build -overlay "$OUT/overlay.json" -tags verif -race -o "$OUT/verifh-race" ./cmd/verifh
 else
